@@ -341,7 +341,10 @@ pub fn check_compiled(rep: &mut Report, prop: &str, batch: &[Pre], engine: Engin
     let elig: Vec<&Pre> = batch
         .iter()
         .filter(|p| {
-            matches!(p.rr.outcome, Outcome::Value(_))
+            // (the fixed-overlap probes are address independent by construction although the taint
+            // analysis cannot prove it; engines are compared with the interpreter in the same
+            // address space)
+            (matches!(p.rr.outcome, Outcome::Value(_)) || p.case.class == "micro/fixed-overlap")
                 && matches!(p.ir.ran, Ran::Ok(_))
                 && !p.rr.neg_ldabs
                 && (engine != Engine::Cranelift || !has_local_call(&p.case.prog))
